@@ -50,6 +50,11 @@ func (c *EventCache) Add(event *Event) (added bool) {
 	c.mu.Lock()
 	defer c.mu.Unlock()
 
+	if event.EventType() == EventTypeEphemeral {
+		// ephemeral events are relayed but never stored
+		return true
+	}
+
 	eventKey := c.getEventKey(event)
 
 	if c.isDeleted(eventKey, event.Pubkey) {
